@@ -1,6 +1,6 @@
 (* C14 -- property theorems only; each closed by `exact` and followed by Print Assumptions. *)
 Require Import SF.Prelude SF.Value SF.Dtype SF.Missing SF.MissingCheck
-  Proofs.MissingSpec Proofs.MissingKernel Proofs.MissingAxis1 Proofs.MissingRows Proofs.MissingNa Proofs.MissingDrop.
+  Proofs.MissingSpec Proofs.MissingKernel Proofs.MissingAxis1 Proofs.MissingRows Gen.Gen_c14 Proofs.MissingNa Proofs.MissingDrop Proofs.MissingGen.
 
 (* THE central theorem.  For EVERY partition of a row into 1-D / 2-D blocks of any widths (rows of a well-formed block list
    of any number of rows), the block-wise forward fill of TypeBlocks._fillna_directional_axis_1 -- bridging_values,
@@ -18,15 +18,27 @@ Theorem C14_ffill_row_any_partition : forall (A : Type) (cf : bool) (limit : Z) 
 Proof. exact @dir_row_forward. Qed.
 Print Assumptions C14_ffill_row_any_partition.
 
-(* Backward: the same, under the explicit guard frame_bwd_dom cf: it is `true` outright for cf = true (the repaired code,
-   count taken from the first yielded slice); for cf = false (the pinned code, as Gen/Gen_c14.v reads it from the source) it
-   demands: no limit, or in every 2-D block the first cell is present or first and last yielded slice are equally long.
-   Without the guard the statement is FALSE of the pinned code: Refuted/C14.v. *)
-Theorem C14_bfill_axis1_any_layout_guarded : forall (A : Type) (cf : bool) (limit : Z) (nrows : nat) (blocks : list (block A)),
+(* Backward: the same, with NO guard, stated over the decision `bwd_count_from_first` that is extracted from the source of
+   TypeBlocks._fillna_directional_axis_1 on every run (Gen/Gen_c14.v; `true` since /repo 690a4f3: walking backward the bridging
+   count leaving a 2-D block comes from the first yielded slice).  If that repair is reverted the extractor emits `false`
+   and this obligation is no longer discharged (the statement is then false: row [NaN | NaN NaN 1 NaN 2], limit 2). *)
+Theorem C14_bfill_axis1_any_layout : forall (A : Type) (limit : Z) (nrows : nat) (blocks : list (block A)),
+  0 <= limit -> frame_wf nrows blocks = true ->
+  M_dir_axis1 bwd_count_from_first false limit nrows blocks = map (S_bfill limit) (frame_rows nrows blocks).
+Proof. exact @dir_axis1_backward_code. Qed.
+Print Assumptions C14_bfill_axis1_any_layout.
+
+Theorem C14_bfill_row_any_partition : forall (A : Type) (limit : Z) (bs : list (rblock A)),
+  0 <= limit -> row_ok bs = true -> M_dir_row bwd_count_from_first false limit bs = S_bfill limit (row_cells bs).
+Proof. exact @dir_row_backward_code. Qed.
+Print Assumptions C14_bfill_row_any_partition.
+
+(* for either decision cf: the refinement under the boolean guard frame_bwd_dom cf (`true` outright when cf = true) *)
+Theorem C14_bfill_axis1_any_decision_guarded : forall (A : Type) (cf : bool) (limit : Z) (nrows : nat) (blocks : list (block A)),
   0 <= limit -> frame_wf nrows blocks = true -> frame_bwd_dom cf limit nrows blocks = true ->
   M_dir_axis1 cf false limit nrows blocks = map (S_bfill limit) (frame_rows nrows blocks).
 Proof. exact @dir_axis1_backward. Qed.
-Print Assumptions C14_bfill_axis1_any_layout_guarded.
+Print Assumptions C14_bfill_axis1_any_decision_guarded.
 
 (* the repaired decision needs no guard at all: backward = specification for every layout and every limit *)
 Theorem C14_bfill_row_repaired_any_partition : forall (A : Type) (limit : Z) (bs : list (rblock A)),
@@ -121,10 +133,15 @@ Theorem C14_dropna_exact : forall (A L : Type) (use_any : bool) (labels : list L
 Proof. exact @S_dropna_lines_exact. Qed.
 Print Assumptions C14_dropna_exact.
 
-(* the keep mask TypeBlocks.dropna_to_keep_locations computes = the lines the specification keeps, for every frame that is
-   not "a single 1-D block on axis 1" (that case is refuted in Refuted/C14.v) *)
-Theorem C14_dropna_keep_refines : forall (A : Type) (reshaped axis1 use_any : bool) (nrows : nat) (single1d : bool) (cols : list (list (option A))),
+(* the keep mask TypeBlocks.dropna_to_keep_locations computes = the lines the specification keeps, for EVERY frame, stated
+   over the decision `dropna_1d_reshaped` extracted from the source on every run (`true` since /repo 35bd018) *)
+Theorem C14_dropna_keep_refines : forall (A : Type) (axis1 use_any : bool) (nrows : nat) (single1d : bool) (cols : list (list (option A))),
+  M_dropna_keep dropna_1d_reshaped axis1 use_any nrows single1d (map (map is_missing) cols) = S_keep axis1 use_any nrows cols.
+Proof. exact @dropna_keep_code. Qed.
+Print Assumptions C14_dropna_keep_refines.
+
+Theorem C14_dropna_keep_any_decision_guarded : forall (A : Type) (reshaped axis1 use_any : bool) (nrows : nat) (single1d : bool) (cols : list (list (option A))),
   (single1d = true -> reshaped = true \/ (axis1 = false /\ exists col, cols = [col] /\ length col = nrows)) ->
   M_dropna_keep reshaped axis1 use_any nrows single1d (map (map is_missing) cols) = S_keep axis1 use_any nrows cols.
 Proof. exact @dropna_keep_refines. Qed.
-Print Assumptions C14_dropna_keep_refines.
+Print Assumptions C14_dropna_keep_any_decision_guarded.
